@@ -50,7 +50,7 @@ def fill : Nat → Nat → List Nat → Option (List Nat)
   | 0, _+1, _ => none                  -- `indices[-1]` would wrap around: never reached (j ≥ i+1 ≥ 1)
   | j+1, cnt+1, ind => do
     let v ← ind[j]?                    -- indices[j-1]
-    let ind ← setAt ind (j+1) (v + 2)
+    let ind ← setAt ind (j+1) (v + 1)
     fill (j+2) cnt ind
 
 /-- `tuple(pool[i] for i in indices)` -/
